@@ -218,6 +218,10 @@ def gen_to_list(eng, st, g):
     st, sq = gen_to_seq(eng, st, g)
     v0 = sq.get(st, z3.Const(fresh_name("i"), I))
     kind = B.value_kind(v0)
+    if kind is None and isinstance(v0, VTuple):
+        st2, rec = B.tlist_from_seq(eng, st, sq)
+        oid = new_oid()
+        return [("ok", st2.setobj(oid, rec), VObj(oid, "tlist", "list"))]
     if kind is None:
         raise Unsupported("list of non-scalar elements")
     st, l = alloc_list(st, kind, length=z3.IntVal(0))
@@ -248,7 +252,8 @@ def iterable_to_seq(eng, st, v):
         if rec.get("lazy"):
             return [("ok", st, VSeq(z3.IntVal(0), lambda s, i: NONE, known_len=0, tag="empty"))]
         st, order, pos, n = _order_of(st, v, rec)
-        return [("ok", st, VSeq(n, lambda s, i: wrap(z3.Select(order, i), rec["kkind"]), tag="setiter", src=("order", order, pos)))]
+        return [("ok", st, VSeq(n, lambda s, i: wrap(z3.Select(order, i), rec["kkind"]), tag="setiter",
+                                src=("order", order, pos, rec["dom"])))]
     h = eng.hooks.get("iter")
     if h:
         r = h(eng, st, v)
